@@ -28,5 +28,5 @@ package bcl
 //@   ensures [C07] received_only_grows: g.ev_bytes_inputs >= old(g.ev_bytes_inputs) && (old(g.ev_closed_inputs) ==> g.ev_closed_inputs)
 //@   assert [C07,C08] line_table_gets_the_absolute_offset_of_the_chunk: at slot.lexer.lpUpd: $prefix == g.ev_bytes_inputs - len($s) && $prefix >= 0
 //@   loop 1 invariant window: 0 <= l.start && l.start <= l.pos && l.pos <= len(l.input) && l.posShift + len(l.input) == g.ev_bytes_inputs && l.lpUpd == old(l.lpUpd) && l.lpUpd != nil && l.posShift >= 0
-//@   loop 1 invariant abstract_positions_kept: l.posShift + l.start == old(l.posShift + l.start) && l.posShift + l.pos == old(l.posShift + l.pos) && g.ev_bytes_inputs >= old(g.ev_bytes_inputs) && !g.ev_closed_inputs && (old(g.ev_closed_inputs) ==> g.ev_closed_inputs)
+//@   loop 1 invariant abstract_positions_kept: l.posShift + l.start == old(l.posShift + l.start) && l.posShift + l.pos == old(l.posShift + l.pos) && g.ev_bytes_inputs >= old(g.ev_bytes_inputs) && (old(g.ev_closed_inputs) ==> g.ev_closed_inputs)
 //@   modifies l.input, l.start, l.pos, l.posShift, l.width, lineCalc.lfs, g.ev_bytes_inputs, g.ev_closed_inputs
